@@ -251,3 +251,150 @@ func fieldGetterValue(p *core.Program, info *types.Info, cl *ast.CaseClause, get
 	}
 	return nil
 }
+
+// checkFactoryFresh: every object a decoding factory hands out is freshly allocated. Each `case K:
+// return NewT()` (or &T{}, new(T)) of the factory switch must, on every return path of the
+// constructor, yield storage allocated in that call; a constructor that returns a package-level
+// instance makes every decoded value of that type alias one object, which Read then overwrites.
+func checkFactoryFresh(p *core.Program, r *core.Report, rule, rel, factory string) {
+	fi := p.Func(rel, factory)
+	if fi == nil || fi.Decl.Body == nil {
+		r.Undec(rule, rel+"."+factory, "-", "factory not found")
+		return
+	}
+	info := fi.Pkg.TypesInfo
+	n := 0
+	ast.Inspect(fi.Decl.Body, func(m ast.Node) bool {
+		rs, ok := m.(*ast.ReturnStmt)
+		if !ok || len(rs.Results) != 1 {
+			return true
+		}
+		if id, isId := ast.Unparen(rs.Results[0]).(*ast.Ident); isId && id.Name == "nil" {
+			return true
+		}
+		n++
+		c := rel + "." + factory + " -> " + stripSpaces(types.ExprString(rs.Results[0]))
+		why := freshExpr(p, info, fi, rs.Results[0], 0)
+		if why != "" {
+			// a shared instance of a type without any state cannot be overwritten by decoding
+			t := info.TypeOf(rs.Results[0])
+			if pt, ok := t.(*types.Pointer); ok {
+				t = pt.Elem()
+			}
+			if st, ok := t.Underlying().(*types.Struct); ok && st.NumFields() == 0 {
+				why = ""
+			}
+		}
+		if why != "" {
+			r.Viol(rule, c, p.Pos(rs.Pos()), "the factory hands out storage that is not allocated by this call ("+why+"): decoded objects of this type alias each other, and decoding one overwrites the others")
+		} else {
+			r.OK(rule, c, p.Pos(rs.Pos()), "freshly allocated")
+		}
+		return true
+	})
+	if n == 0 {
+		r.Undec(rule, rel+"."+factory, p.Pos(fi.Decl.Pos()), "no constructing return found")
+	}
+}
+
+// freshExpr returns "" when e denotes storage allocated during this call, else the reason.
+func freshExpr(p *core.Program, info *types.Info, fi *core.FuncInfo, e ast.Expr, depth int) string {
+	e = ast.Unparen(e)
+	if depth > 3 {
+		return "constructor chain too deep"
+	}
+	switch v := e.(type) {
+	case *ast.UnaryExpr:
+		if _, ok := ast.Unparen(v.X).(*ast.CompositeLit); ok && v.Op == token.AND {
+			return ""
+		}
+	case *ast.CompositeLit:
+		return ""
+	case *ast.CallExpr:
+		if id, ok := v.Fun.(*ast.Ident); ok {
+			if _, isB := info.Uses[id].(*types.Builtin); isB && (id.Name == "new" || id.Name == "make") {
+				return ""
+			}
+		}
+		var fid *ast.Ident
+		switch f := v.Fun.(type) {
+		case *ast.Ident:
+			fid = f
+		case *ast.SelectorExpr:
+			fid = f.Sel
+		}
+		if fid != nil {
+			if fn, _ := info.Uses[fid].(*types.Func); fn != nil {
+				cfi := p.FuncOf(fn)
+				if cfi == nil || cfi.Decl.Body == nil {
+					return "constructor " + fn.Name() + " has no body in the module"
+				}
+				why := ""
+				found := false
+				ast.Inspect(cfi.Decl.Body, func(m ast.Node) bool {
+					if _, isLit := m.(*ast.FuncLit); isLit {
+						return false
+					}
+					if rs, ok := m.(*ast.ReturnStmt); ok && len(rs.Results) >= 1 {
+						found = true
+						if w := freshExpr(p, cfi.Pkg.TypesInfo, cfi, rs.Results[0], depth+1); w != "" && why == "" {
+							why = fn.Name() + " returns " + w
+						}
+					}
+					return true
+				})
+				if !found {
+					return "constructor " + fn.Name() + " has no return"
+				}
+				return why
+			}
+		}
+		if tv, ok := info.Types[v.Fun]; ok && tv.IsType() && len(v.Args) == 1 {
+			return freshExpr(p, info, fi, v.Args[0], depth+1)
+		}
+	case *ast.Ident:
+		obj := info.ObjectOf(v)
+		if vr, ok := obj.(*types.Var); ok {
+			if vr.Parent() == vr.Pkg().Scope() {
+				return "the package-level variable " + v.Name
+			}
+			// local: every assignment to it must be fresh
+			why := ""
+			n := 0
+			ast.Inspect(fi.Decl.Body, func(m ast.Node) bool {
+				switch a := m.(type) {
+				case *ast.AssignStmt:
+					if len(a.Lhs) == len(a.Rhs) {
+						for i, l := range a.Lhs {
+							if lid, ok := l.(*ast.Ident); ok && info.ObjectOf(lid) == obj {
+								n++
+								if w := freshExpr(p, info, fi, a.Rhs[i], depth+1); w != "" && why == "" {
+									why = w
+								}
+							}
+						}
+					}
+				case *ast.ValueSpec:
+					for i, nm := range a.Names {
+						if info.Defs[nm] == obj {
+							n++
+							if i < len(a.Values) {
+								if w := freshExpr(p, info, fi, a.Values[i], depth+1); w != "" && why == "" {
+									why = w
+								}
+							} else if _, isPtr := obj.Type().Underlying().(*types.Pointer); isPtr {
+								why = "a nil pointer variable"
+							}
+						}
+					}
+				}
+				return true
+			})
+			if n == 0 {
+				return "parameter or captured variable " + v.Name
+			}
+			return why
+		}
+	}
+	return "`" + stripSpaces(types.ExprString(e)) + "`"
+}
